@@ -39,7 +39,7 @@ def run(pid, tier, seed, chk):
         if not cpp: broken.append('C++ harness does not build against /repo: ' + err2[-500:])
         results = []
         if dok and cdrive and cpp:
-            ntree = 1600 if tier == 'quick' else 12000; ndocs = 3200 if tier == 'quick' else 30000
+            ntree = 1600 if tier == 'quick' else 48000; ndocs = 3200 if tier == 'quick' else 120000
             shards = 8 if tier == 'quick' else chk.NCPU
             procs = []
             for s in range(shards):
